@@ -26,10 +26,10 @@ const (
 	szHash       = 32
 	szSig        = 64
 	szAccount    = 32
-	szPrices     = 6*szCurrency + 8 + 8 + szSig        // 176
-	szToken      = 32 + szAccount + 8 + szSig          // 136
-	szDeposit    = szAccount + szCurrency              // 48
-	szAttachment = szAccount + szAccount + 8 + szSig   // 136
+	szPrices     = 6*szCurrency + 8 + 8 + szSig      // 176
+	szToken      = 32 + szAccount + 8 + szSig        // 136
+	szDeposit    = szAccount + szCurrency            // 48
+	szAttachment = szAccount + szAccount + 8 + szSig // 136
 	szContract   = 8 + 8 + 32 + 8 + 8 + 48 + 48 + 16 + 16 + 32 + 32 + 8 + 64 + 64
 	limObject    = 10 * 1024
 	limTxnSet    = 100 * 1024
@@ -160,7 +160,9 @@ var v4types = func() []*v4type {
 				return req.Validate(hostPK, types.ChainIndex{Height: req.Prices.TipHeight}, types.MaxCurrency, 1<<40)
 			}},
 		{name: "RPCFormContractResponse", maxLen: limTxnSet, maxN: maxTxnInputs, maxWhat: "20 host inputs, proofs of depth 40 (generator bound)",
-			build: func(r *rng, n int) rhp4.Object { return &rhp4.RPCFormContractResponse{HostInputs: r.v2Inputs(n, proofDepth)} }},
+			build: func(r *rng, n int) rhp4.Object {
+				return &rhp4.RPCFormContractResponse{HostInputs: r.v2Inputs(n, proofDepth)}
+			}},
 		{name: "RPCFormContractSecondResponse", maxLen: limObject, maxN: maxTxnInputs, maxWhat: "20 satisfied policies (generator bound)",
 			build: func(r *rng, n int) rhp4.Object {
 				return &rhp4.RPCFormContractSecondResponse{RenterContractSignature: r.sig(), RenterSatisfiedPolicies: r.satisfieds(n)}
@@ -188,7 +190,9 @@ var v4types = func() []*v4type {
 				return req.Validate(hostPK, types.ChainIndex{}, renewFrom, types.MaxCurrency, 1<<40)
 			}},
 		{name: "RPCRenewContractResponse", maxLen: limTxnSet, maxN: maxTxnInputs, maxWhat: "20 host inputs, depth 40 (generator bound)",
-			build: func(r *rng, n int) rhp4.Object { return &rhp4.RPCRenewContractResponse{HostInputs: r.v2Inputs(n, proofDepth)} }},
+			build: func(r *rng, n int) rhp4.Object {
+				return &rhp4.RPCRenewContractResponse{HostInputs: r.v2Inputs(n, proofDepth)}
+			}},
 		{name: "RPCRenewContractSecondResponse", maxLen: limObject, maxN: maxTxnInputs, maxWhat: "20 satisfied policies (generator bound)",
 			build: func(r *rng, n int) rhp4.Object {
 				return &rhp4.RPCRenewContractSecondResponse{RenterRenewalSignature: r.sig(), RenterContractSignature: r.sig(), RenterSatisfiedPolicies: r.satisfieds(n)}
@@ -218,7 +222,9 @@ var v4types = func() []*v4type {
 				return req.Validate(hostPK, types.ChainIndex{}, refreshFrom, types.MaxCurrency, false)
 			}},
 		{name: "RPCRefreshContractResponse", maxLen: limTxnSet, maxN: maxTxnInputs, maxWhat: "20 host inputs, depth 40 (generator bound)",
-			build: func(r *rng, n int) rhp4.Object { return &rhp4.RPCRefreshContractResponse{HostInputs: r.v2Inputs(n, proofDepth)} }},
+			build: func(r *rng, n int) rhp4.Object {
+				return &rhp4.RPCRefreshContractResponse{HostInputs: r.v2Inputs(n, proofDepth)}
+			}},
 		{name: "RPCRefreshContractSecondResponse", maxLen: limObject, maxN: maxTxnInputs, maxWhat: "20 satisfied policies (generator bound)",
 			build: func(r *rng, n int) rhp4.Object {
 				return &rhp4.RPCRefreshContractSecondResponse{RenterRenewalSignature: r.sig(), RenterContractSignature: r.sig(), RenterSatisfiedPolicies: r.satisfieds(n)}
@@ -279,7 +285,9 @@ var v4types = func() []*v4type {
 
 		// --- revision, sectors
 		{name: "RPCLatestRevisionRequest", request: true, id: rhp4.RPCLatestRevisionID, maxLen: szHash,
-			build: func(r *rng, n int) rhp4.Object { return &rhp4.RPCLatestRevisionRequest{ContractID: types.FileContractID(r.hash())} }},
+			build: func(r *rng, n int) rhp4.Object {
+				return &rhp4.RPCLatestRevisionRequest{ContractID: types.FileContractID(r.hash())}
+			}},
 		{name: "RPCLatestRevisionResponse", maxLen: szContract,
 			build: func(r *rng, n int) rhp4.Object {
 				return &rhp4.RPCLatestRevisionResponse{Contract: r.v2Contract(), Revisable: r.bool(), Renewed: r.bool()}
@@ -364,7 +372,9 @@ var v4types = func() []*v4type {
 			validate: func(o rhp4.Object) error { return o.(*rhp4.RPCReplenishAccountsRequest).Validate() }},
 		{name: "RPCReplenishAccountsResponse", maxLen: 8 + szDeposit*maxAccounts, maxN: maxAccounts, maxWhat: "MaxAccountBatchSize deposits",
 			build: func(r *rng, n int) rhp4.Object { return &rhp4.RPCReplenishAccountsResponse{Deposits: r.deposits(n)} }},
-		sigOnly("RPCReplenishAccountsSecondResponse", func(s types.Signature) rhp4.Object { return &rhp4.RPCReplenishAccountsSecondResponse{RenterSignature: s} }),
+		sigOnly("RPCReplenishAccountsSecondResponse", func(s types.Signature) rhp4.Object {
+			return &rhp4.RPCReplenishAccountsSecondResponse{RenterSignature: s}
+		}),
 		sigOnly("RPCReplenishAccountsThirdResponse", func(s types.Signature) rhp4.Object { return &rhp4.RPCReplenishAccountsThirdResponse{HostSignature: s} }),
 		{name: "RPCFundAccountsRequest", request: true, id: rhp4.RPCFundAccountsID,
 			maxLen: szHash + 8 + szDeposit*maxAccounts + szSig, maxN: maxAccounts, minN: 1, batchLimit: true, maxWhat: "MaxAccountBatchSize deposits",
@@ -377,7 +387,9 @@ var v4types = func() []*v4type {
 			},
 			validate: func(o rhp4.Object) error { return o.(*rhp4.RPCFundAccountsRequest).Validate() }},
 		{name: "RPCFundAccountsResponse", maxLen: 8 + szCurrency*maxAccounts + szSig, maxN: maxAccounts, maxWhat: "MaxAccountBatchSize balances",
-			build: func(r *rng, n int) rhp4.Object { return &rhp4.RPCFundAccountsResponse{Balances: r.curs(n), HostSignature: r.sig()} }},
+			build: func(r *rng, n int) rhp4.Object {
+				return &rhp4.RPCFundAccountsResponse{Balances: r.curs(n), HostSignature: r.sig()}
+			}},
 
 		// --- pools
 		{name: "RPCAttachPoolsRequest", request: true, id: rhp4.RPCAttachPoolsID, maxLen: 8 + szAttachment*maxAccounts, maxN: maxAccounts, minN: 1, batchLimit: true,
